@@ -72,8 +72,9 @@ class Table:
         for s in self.msg_sites:
             m = s['rx'].fullmatch(text)
             if m and (s['parts'] or text == ''):
-                if len(s['parts']) == 1 and s['parts'][0][0] == 'SExc':
+                if len(s['parts']) == 1 and s['parts'][0][0] == 'SExc' and all(c in self.pk for c in s['parts'][0][1]):
                     continue        # "str(e) of a KmipError": explained by the raise site instead
+                # (a single foreign SExc - crypto/engine.py wrap_key - is the runtime remainder; it sorts last)
                 return s, list(m.groups())
         return None, None
 
@@ -101,6 +102,19 @@ def diff_span(a, b):
     return max(len(a), len(b)) - i - j, a[i:len(a) - j], b[i:len(b) - j]
 
 
+NUMTOK = re.compile(r'\b(?:0x[0-9a-fA-F]{1,16}|\d{1,20})\b')
+
+
+def site_name(table, key):
+    """'file:function' of a log record (line numbers shift with unrelated edits; signatures must not)."""
+    if key[0] != 'log':
+        return 'message'
+    for s in table.by_file.get(key[1], []):
+        if s['kind'].startswith('KLog') and s['line'] <= key[2] <= s['end']:
+            return '%s:%s' % (s['file'], s['func'])
+    return '%s:%s' % (key[1], key[2])
+
+
 def texts_of(w):
     """[(where, kind-key, text)] every text the run exposed at level >= INFO or to a client."""
     out = []
@@ -121,12 +135,11 @@ def run_history(ctx, table, hist, struct_seed, can_seed, cases, meta, stats):
     # ---- direct oracle 1: canary scan
     for where, key, text in texts_of(w):
         for kind, form, needle in w.can.scan(text):
-            site = None
             if key[0] == 'log':
-                site = '%s:%d' % (key[1], key[2])
+                site = site_name(table, key)
             else:
                 s, _ = table.locate_message(text)
-                site = 'message' if s is None else '%s:%d' % (s['file'], s['line'])
+                site = 'message' if s is None else '%s:%s' % (s['file'], s['func'])
             at = text.find(needle) if form not in ('hex', 'half-hex') else text.lower().find(needle)
             sig = {'oracle': 'canary-scan', 'site': site, 'canary': kind, 'form': form, 'channel': key[0]}
             wit = {'history': hist['name'], 'layer': hist['layer'], 'struct_seed': struct_seed, 'canary_seed': can_seed,
@@ -164,6 +177,9 @@ def run_history(ctx, table, hist, struct_seed, can_seed, cases, meta, stats):
         add_case(ctx, cases, meta, stats, s, r['rel'], r['lineno'], args, r['text'], hist['name'])
     for step, kind, text in w.messages:
         stats['messages'] += 1
+        ctx.count('text.%s' % kind)
+        if kind == 'client-error':
+            continue        # client-side exception text (any class): scanned, not modelled
         s, args = table.locate_message(text)
         if s is None:
             ctx.disagreement('messages', {'what': 'result message is not a rendering of any result-message / KmipError raise site',
@@ -187,7 +203,7 @@ def add_case(ctx, cases, meta, stats, s, rel, line, args, text, hname):
     meta.append({'site': '%s:%d' % (s['file'], s['line']), 'args': args, 'text': text[:200], 'history': hname})
 
 
-def swap_compare(ctx, hist, wa, wb, stats):
+def swap_compare(ctx, table, hist, wa, wb, stats):
     """direct oracle 2: same history, other secrets of the same lengths."""
     ta, tb = texts_of(wa), texts_of(wb)
     ka, kb = [k for _, k, _ in ta], [k for _, k, _ in tb]
@@ -201,9 +217,11 @@ def swap_compare(ctx, hist, wa, wb, stats):
             continue
         n, da, db = diff_span(a, b)
         stats['swap_diffs'] += 1
-        if n >= 8:
-            site = '%s:%d' % (key[1], key[2]) if key[0] == 'log' else 'message'
-            ctx.violation({'oracle': 'secret-swap', 'site': site, 'channel': key[0]},
+        if n >= 6:
+            site = site_name(table, key)
+            # what differs: only short numbers (<= 20 digits / 16 hex digits), or more?
+            cause = 'short-number-echo' if NUMTOK.sub('#', a) == NUMTOK.sub('#', b) else 'text'
+            ctx.violation({'oracle': 'secret-swap', 'site': site, 'channel': key[0], 'cause': cause},
                           {'history': hist['name'], 'layer': hist['layer'], 'struct_seed': wa.struct_seed,
                            'canary_seeds': [wa.can_seed, wb.can_seed], 'where': where,
                            'span_a': da[:200], 'span_b': db[:200], 'text_a': a[:500], 'trace': wa.trace[-40:],
@@ -229,6 +247,7 @@ def run(ctx):
         'a variable named like a uid that holds key bytes would be classified Uid - only the canary scan sees that)',
         'logging capture: handlers on the root and "kmip" loggers at INFO, tracebacks formatted with logging.Formatter',
         'runtime remainder (Logs/Remainder.v): third-party exception texts - canary scan and secret swap only']
+    load_own_findings(ctx)
     ok_t = ctx.regen(only=['logsites'])
     ctx.prove('props/C20.v')
     table = Table(ctx.repo)
@@ -249,7 +268,7 @@ def run(ctx):
             traceback.print_exc()
             ctx.disagreement('harness', {'history': hist['name'], 'exception': repr(e)})
             continue
-        swap_compare(ctx, hist, wa, wb, stats)
+        swap_compare(ctx, table, hist, wa, wb, stats)
         ctx.count('history.%s' % hist['layer'])
         for k, v in wa.opcount.items():
             ctx.count(k, v)
@@ -282,7 +301,21 @@ def run(ctx):
         ctx.sample({'coq_case': cases[len(cases) // 2][:400]})
 
 
+def load_own_findings(ctx):
+    """findings.d/C20.json is the source known_findings.json is merged from (bin/mkmanifest); read it directly so
+    that the check does not depend on the merge having been run.  Never written at run time."""
+    import json
+    from pathlib import Path
+    p = Path(__file__).resolve().parents[1] / 'findings.d' / 'C20.json'
+    if p.exists():
+        have = {f.get('id') for f in ctx.findings}
+        for f in json.loads(p.read_text()):
+            if f.get('property') == 'C20' and f.get('id') not in have:
+                ctx.findings.append(f)
+
+
 def replay(ctx, payload):
+    load_own_findings(ctx)
     inp = payload.get('input') or {}
     name = inp.get('history')
     if not name:
@@ -294,7 +327,7 @@ def replay(ctx, payload):
     stats = new_stats()
     ws = [run_history(ctx, table, hist, inp['struct_seed'], cs, [], [], stats) for cs in seeds]
     if len(ws) == 2:
-        swap_compare(ctx, hist, ws[0], ws[1], stats)
+        swap_compare(ctx, table, hist, ws[0], ws[1], stats)
     for v in ctx.violations[:5]:
         print('REPRODUCED:', v['what'])
         print('  ', v['witness'].get('text_excerpt') or v['witness'].get('span_a'))
